@@ -872,8 +872,13 @@ def t_range(args, kw, node):
 def t_zip(args, kw, node):
     # structured zip: lists with the same explicit prefix length are zipped element-wise, tails with tails
     args = [Lst(list(a.items)) if isinstance(a, Tup) else a for a in args]
+    # a shape of known rank is a tuple of its extents
+    args = [Lst(list(a.dims) if a.dims is not None else [Deg({()}, 0) for _ in range(a.rank)]) if isinstance(a, ShapeV) and a.rank is not None else a for a in args]
     if args and all(isinstance(a, Lst) for a in args):
         n = min(len(a.items) for a in args)
+        if all(a.tail is None for a in args):
+            # explicit sequences: zip stops at the shortest
+            return Lst([Tup([a.items[i] for a in args]) for i in range(n)], None)
         if all(len(a.items) == n for a in args) and (all(a.tail is not None for a in args) or all(a.tail is None for a in args)):
             items = [Tup([a.items[i] for a in args]) for i in range(n)]
             tail = Tup([a.tail for a in args]) if args[0].tail is not None else None
@@ -917,6 +922,18 @@ def t_zip_longest(args, kw, node):
         r = join(r, num(elem(e)) if isinstance(e, (Lst, Tup)) else num(e))
     r = join(r, num(kw.get("fillvalue", Cst(0))))
     return Lst([], Tup([withrank(r, 0)]))
+
+
+def t_split(args, kw, node):
+    """np.split / array_split / hsplit / vsplit / dsplit: pieces of the array, each of its degree and rank"""
+    a = num(args[0]) if args else ANY
+    piece = withrank(a, getattr(a, "rank", None)) if isinstance(a, Deg) else a
+    cuts = args[1] if len(args) > 1 else kw.get("indices_or_sections")
+    if isinstance(cuts, (Lst, Tup)) and getattr(cuts, "tail", None) is None:
+        return Lst([piece for _ in range(len(cuts.items) + 1)])
+    if isinstance(cuts, Cst) and isinstance(cuts.v, int) and 0 < cuts.v <= 8:
+        return Lst([piece for _ in range(cuts.v)])
+    return Lst([piece], piece)
 
 
 def t_expand(args, kw, node):
@@ -1014,13 +1031,19 @@ def t_dict(args, kw, node):
     d = {}
     if args and isinstance(args[0], Dct):
         d.update(args[0].d)
+    elif args and isinstance(args[0], Obj):
+        d.update(args[0].attrs)         # dict(model): the fields of a parameter / result model
     elif args and isinstance(args[0], Lst):
         a0 = args[0]
         if a0.tail is None and all(isinstance(x, Tup) and len(x.items) == 2 and isinstance(x.items[0], Cst) for x in a0.items):
             # dict(zip(("a", "b"), values)) with literal keys
             d.update({x.items[0].v: x.items[1] for x in a0.items})
         else:
-            return Dct({})      # unknown keys
+            CTX.event("unknown-call", node, "dict(...) of pairs whose keys are not known")
+            return Dct({"?0": elem(elem(a0)) if isinstance(elem(a0), (Tup, Lst)) else elem(a0)})      # unknown keys
+    elif args:
+        CTX.event("unknown-call", node, "dict(...) of a value that is not followed")
+        return Dct({"?0": ANY})
     d.update(kw)
     return Dct(d)
 
@@ -1047,6 +1070,8 @@ def t_isinstance(args, kw, node):
             return tn == "tuple"
         if isinstance(v, Dct):
             return tn == "dict"
+        if isinstance(v, Deg) and getattr(v, "rank", None) not in (None, 0) and tn in ("tuple", "list", "dict", "str", "int", "float", "bool"):
+            return False        # an array (rank >= 1) is none of the builtin containers / scalars
         return None
     rs = [one(n) for n in names]
     if any(r is True for r in rs):
@@ -1068,6 +1093,7 @@ class ShapeV(V):
 
 
 NP = {
+    "split": t_split, "array_split": t_split, "hsplit": t_split, "vsplit": t_split, "dsplit": t_split,
     "dot": t_dot, "matmul": t_dot, "kron": t_kron, "outer": t_outer, "round": t_round, "around": t_round, "rint": t_round, "floor": t_round, "ceil": t_round, "trunc": t_round, "float64": t_array, "float32": t_array, "complex128": t_array, "int64": t_int, "vstack": t_stack, "hstack": t_stack, "concatenate": t_stack,
     "stack": t_stack, "column_stack": t_stack, "block": lambda a, k, n: withrank(num(a[0]), 2), "row_stack": t_stack, "array": t_array, "asarray": t_array, "zeros": t_zero,
     "empty": t_zero, "zeros_like": t_zeros_like, "empty_like": t_zeros_like, "ones": t_ones, "ones_like": t_ones_like,
@@ -1195,6 +1221,9 @@ class Interp:
         CTX.fn_probe_names.add("pyoma2." + qual)
 
 
+_GLOBAL_DEPTH = [0]
+
+
 def _lookup_global(mod, name):
     r = CTX.prog.lookup(mod, name)
     return wrap_prog(r)
@@ -1217,6 +1246,14 @@ def wrap_prog(r):
             return Cst(v.value)
         if isinstance(v, ast.Call) and isinstance(v.func, ast.Attribute) and v.func.attr == "getLogger":
             return Ext("logging.Logger")
+        if isinstance(v, (ast.Dict, ast.Tuple, ast.List, ast.Lambda, ast.UnaryOp, ast.BinOp)) and len(r) > 2 and _GLOBAL_DEPTH[0] < 4:
+            # a table written out at module level (names, numbers, small functions): its value as written.  (Effects on it that
+            # survive from one call to the next are not followed: each look-up sees the table as written.)
+            _GLOBAL_DEPTH[0] += 1
+            try:
+                return ev(v, Frame(r[2], {}, r[2] + ".<module>"))
+            finally:
+                _GLOBAL_DEPTH[0] -= 1
         return Unk("module-global")
     return Unk(f"global {r!r}")
 
@@ -1663,8 +1700,10 @@ def _exec_loop(s, fr):
 def truth(c):
     if isinstance(c, Cst):
         return bool(c.v)
+    if isinstance(c, Lst) and c.items:
+        return True           # definite items: not empty, whatever else may have been appended
     if isinstance(c, Lst) and c.tail is None:
-        return len(c.items) > 0
+        return False
     if isinstance(c, Tup):
         return len(c.items) > 0
     if isinstance(c, (Obj, Fn, ClsV)):
@@ -1817,7 +1856,7 @@ def ev(e, fr):
         g = _lookup_global(fr.mod, e.id)
         if g is not None:
             return g
-        if e.id in BUILTINS or e.id in EXC_NAMES or e.id in ("complex", "bool", "str", "list", "int", "dict", "float", "tuple", "super", "getattr", "object", "slice"):
+        if e.id in BUILTINS or e.id in EXC_NAMES or e.id in ("complex", "bool", "str", "list", "int", "dict", "float", "tuple", "super", "getattr", "setattr", "object", "slice"):
             return Ext(e.id)
         return Unk(f"name {e.id}")
     if isinstance(e, ast.Attribute):
@@ -1902,10 +1941,25 @@ def ev(e, fr):
         gen = e.generators[0]
         it = ev(gen.iter, fr)
         saved = copy_env(fr.env)
-        items = list(it.items) + ([it.tail] if isinstance(it, Lst) and it.tail is not None else []) if isinstance(it, (Lst, Tup)) else [elem(it)]
+        if isinstance(it, Dct):
+            items = [Cst(k) if not (isinstance(k, str) and k.startswith("?")) else ANY for k in it.d]       # iteration over the keys
+        elif isinstance(it, (Lst, Tup)):
+            items = list(it.items) + ([it.tail] if isinstance(it, Lst) and it.tail is not None else [])
+        else:
+            items = [elem(it)]
         d = {}
         for i, v in enumerate(items):
             assign(gen.target, v, fr, e)
+            keep = True
+            for cond in gen.ifs:
+                t_ = truth(ev(cond, fr))
+                if t_ is False:
+                    keep = False
+                    break
+                if t_ is None:
+                    CTX.event("unknown-call", e, "a dictionary comprehension whose filter is not decided")
+            if not keep:
+                continue
             k = ev(e.key, fr)
             val = ev(e.value, fr)
             d[k.v if isinstance(k, Cst) else f"?{i}"] = val
@@ -2072,6 +2126,8 @@ def attr(o, name, node, fr):
                 return ev(ca, Frame(c.mod, {}, c.qual))
         if name == "__class__":
             return ClsV(o.cls) if o.cls else BOOL
+        if name in ("model_copy", "copy", "model_dump", "dict"):
+            return ("objmethod", o, name)          # parameter / result models: a copy with some fields replaced, the fields as a dict
         return Unk(f"attr {name}")
     if isinstance(o, Dct):
         return ("dictmethod", o, name)
@@ -2128,13 +2184,20 @@ def call(e, fr):
         else:
             args.append(v)
     kw = {}
+    blind_kw = False
     for k in e.keywords:
         v = ev(k.value, fr)
         if k.arg is None:
-            if isinstance(v, Dct):
+            if isinstance(v, Dct) and not any(isinstance(k_, str) and k_.startswith("?") for k_ in v.d):
                 kw.update(v.d)
+            else:
+                # keywords that are not known: what the callee receives for its other parameters cannot be said
+                CTX.event("unknown-call", e, f"**{ast.unparse(k.value)[:40]} (keywords not known)")
+                blind_kw = True
         else:
             kw[k.arg] = v
+    if blind_kw and not isinstance(f, Fn):
+        return Unk(f"call with unknown keywords `**{ast.unparse([k.value for k in e.keywords if k.arg is None][0])[:30]}`")
     if isinstance(f, Fn):
         return call_fn(f, args, kw, e)
     if isinstance(f, ClsV):
@@ -2143,6 +2206,21 @@ def call(e, fr):
         kind = f[0]
         if kind == "arrmethod":
             return arrmethod(f[1], f[2], args, kw, e)
+        if kind == "objmethod":
+            o, name = f[1], f[2]
+            if name in ("model_copy", "copy"):
+                upd = kw.get("update")
+                new = Obj(dict(o.attrs), o.cls)
+                if isinstance(upd, Dct):
+                    for k_, v_ in upd.d.items():
+                        if isinstance(k_, str) and not k_.startswith("?"):
+                            new.attrs[k_] = v_
+                        else:
+                            CTX.event("unknown-call", e, "model_copy(update=..) with keys that are not known")
+                elif upd is not None and not (isinstance(upd, Cst) and upd.v is None):
+                    CTX.event("unknown-call", e, "model_copy(update=..) with a mapping that is not known")
+                return new
+            return Dct(dict(o.attrs))
         if kind == "listmethod":
             l, name = f[1], f[2]
             if name == "append":
@@ -2279,6 +2357,15 @@ def call_ext(n, args, kw, e, fr):
         return BUILTINS[n](args, kw, e)
     if n == "super":
         return ("super", fr)
+    if n == "setattr" and len(args) == 3:
+        if isinstance(args[0], Obj) and isinstance(args[1], Cst) and isinstance(args[1].v, str):
+            args[0].attrs[args[1].v] = args[2]
+            return Cst(None)
+        CTX.event("unknown-call", e, "setattr with a name that is not known")
+        if isinstance(args[0], Obj):
+            for k_ in list(args[0].attrs):
+                args[0].attrs[k_] = join(args[0].attrs[k_], args[2])
+        return Cst(None)
     if n == "getattr":
         if len(args) >= 2 and isinstance(args[1], Cst) and isinstance(args[1].v, str):
             r = attr(args[0], args[1].v, e, fr)
